@@ -305,6 +305,34 @@ def library_oracle(ctx):
 
 
 def replay(rp):
-    print(common.canon(rp.get("case")))
+    """re-run the stored case against the implementation, the independent oracle and the model"""
+    from pydrobert.speech.compute import STFTFrameComputer
+    from .tracers import SpecBank, IntWindow
+
+    case = rp.get("case", {})
+    print(common.canon(case))
+    if case.get("kind") == "walk":
+        D, start, ln = case["D"], case["start"], case["len"]
+        taps = [complex(t) for t in case["taps"]]
+        A = np.asarray(case["A"], dtype=np.float64)
+        x = np.fft.irfft(A, n=D)
+        bank = SpecBank([(start, np.asarray(taps, dtype=np.complex128))])
+        for power in (False, True):
+            comp = STFTFrameComputer(bank, frame_length_ms=D, frame_shift_ms=D, frame_style="causal",
+                                     window_function=IntWindow(mode="ones"), use_log=False, use_power=power,
+                                     pad_to_nearest_power_of_two=False)
+            got = comp.compute_full(x)
+            X = np.fft.fft(x)
+            H = bank.get_frequency_response(0, D)
+            print("use_power=%s impl=%r oracle(full spectrum)=%r" % (power, got.tolist(), float(np.sum(np.abs(X * H) ** (2 if power else 1)))))
+        out = common.Driver("C02").run(["walk %d %d %d" % (D, start, ln)])[0]
+        print("model hits (half-spectrum idx, conj, tap):", out)
+    elif case.get("kind") == "framing":
+        L, S, ce, ka, N, j = case["L"], case["S"], case["centered"], case["kaldi"], case["N"], case["hot"]
+        taps = sc.window_taps("hot%d" % j, L)
+        comp = sc.make_dc_computer(L, S, ce, ka, taps)
+        print("impl rows:", sc.as_int_rows(comp.compute_full(sc.sig(0, N))))
+        out = common.Driver("C02").run([sc.ops_line(L, S, ce, ka, ["F%d" % N])])[0]
+        print("model rows:", sc.expected_from_model(out, ["F%d" % N], taps, same_signal=True))
     print("oracle:", rp.get("oracle"), "expected", rp.get("expected"), "got", rp.get("got"))
     return 0
